@@ -6,9 +6,16 @@ package config
 
 // The exclusion-file readers and the regex compiler only build new values (files, HTTP and
 // regexp are outside the verified subset): assumed to write nothing the caller can see.
+// Verified for one clause each: every line the scanner yields is kept, in the order read (one
+// entry per successful Scan), and on success nothing else is in the list.
 //@ func readLocalExclusionFile
-//@   opaque
-//@   modifies nothing
+//@   property C05
+//@   modifies closes
+//@   local nLines int = 0
+//@   attr hooked Scan
+//@   after Scan(scanner)#1: nLines = nLines + ite(opResult, 1, 0)
+//@   loop for invariant [kept] len(regexes) == nLines && freshslice(regexes)
+//@   ensures [every-line] err == nil ==> len(regexes) == nLines // C05: an exclusion-file regex (every line of the exclusion file becomes a pattern: one entry per line the scanner delivered)
 //@ func readRemoteExclusionFile
 //@   opaque
 //@   modifies nothing
